@@ -1174,6 +1174,120 @@ def run_structs(ctx, drv, cases, heavy_every):
 
 
 # ------------------------------------------------------------------------------------------------
+# cross-process pickling: "equal contents compare and hash equal", "pickling returns an equal value" must
+# hold in the process that loads the pickle too (str hashes differ between interpreters)
+# ------------------------------------------------------------------------------------------------
+
+_CHILD = r"""
+import sys, json, base64, pickle
+sys.path.insert(0, %r)
+from harness import compat  # puts VERIF_REPO first on sys.path
+from flax.core.frozen_dict import FrozenDict
+
+def build(j):
+  if isinstance(j, dict):
+    return {k: build(v) for k, v in j.items()}
+  if isinstance(j, list):
+    return tuple(build(v) for v in j)
+  return j
+
+req = json.load(sys.stdin)
+out = {'loaded': [], 'made': []}
+for it in req['load']:
+  try:
+    x = pickle.loads(base64.b64decode(it['b64']))
+    fresh = FrozenDict(build(it['spec']))
+    out['loaded'].append({'type': isinstance(x, FrozenDict), 'eq': bool(x == fresh and fresh == x), 'hash': hash(x) == hash(fresh),
+                          'set': x in {fresh}, 'dict': {fresh: 1}.get(x) == 1})
+  except Exception as e:
+    out['loaded'].append({'error': type(e).__name__})
+for it in req['make']:
+  fd = FrozenDict(build(it['spec']))
+  if it['hashed']:
+    hash(fd)
+  out['made'].append(base64.b64encode(pickle.dumps(fd)).decode())
+json.dump(out, sys.stdout)
+"""
+
+
+def _xp_build(j):
+  if isinstance(j, dict):
+    return {k: _xp_build(v) for k, v in j.items()}
+  if isinstance(j, list):
+    return tuple(_xp_build(v) for v in j)
+  return j
+
+
+def _xp_spec(rng, depth):
+  """nested dict literal with str keys and str / int / tuple-of-str values (all hashable, all picklable)"""
+  d = {}
+  for k in rng.sample(['params', 'kernel', 'bias', 'batch_stats', 'mean', 'a', 'b'], rng.randrange(1, 4)):
+    r = rng.random()
+    if depth > 0 and r < 0.4:
+      d[k] = _xp_spec(rng, depth - 1)
+    elif r < 0.75:
+      d[k] = 'v%d' % rng.randrange(1000)
+    elif r < 0.9:
+      d[k] = rng.randrange(1000)
+    else:
+      d[k] = ['t%d' % rng.randrange(100), rng.randrange(10)]
+  return d
+
+
+def cross_process_pickle(ctx, specs_out=None, specs_back=None):
+  """one child interpreter with a different PYTHONHASHSEED: it loads FrozenDicts pickled here (half of them hashed
+  before pickling) and pickles its own for us to load. Everything loaded must equal, hash like, and be found in
+  sets/dicts of, a FrozenDict built afresh from the same literal in the loading process."""
+  import base64
+  import os
+  import subprocess
+  import sys
+  from harness.common import VERIF
+
+  rng = ctx.rng
+  if specs_out is None:
+    specs_out = [{'spec': _xp_spec(rng, 2), 'hashed': i % 2 == 0} for i in range(24)]
+    specs_back = [{'spec': _xp_spec(rng, 2), 'hashed': i % 2 == 0} for i in range(24)]
+  load = []
+  for it in specs_out:
+    fd = FrozenDict(_xp_build(it['spec']))
+    if it['hashed']:
+      hash(fd)
+    load.append({'spec': it['spec'], 'b64': base64.b64encode(pickle.dumps(fd)).decode()})
+  env = dict(os.environ)
+  env['PYTHONHASHSEED'] = '54321' if os.environ.get('PYTHONHASHSEED') == '12345' else '12345'
+  p = subprocess.run([sys.executable, '-c', _CHILD % VERIF], input=json.dumps({'load': load, 'make': specs_back}),
+                     capture_output=True, text=True, env=env, timeout=120)
+  if p.returncode != 0:
+    raise InfraError('cross-process pickle child failed: ' + p.stderr[-400:])
+  out = json.loads(p.stdout)
+  case = {'kind': 'xproc', 'out': specs_out, 'back': specs_back}
+
+  def judge(direction, it, res):
+    ctx.case({'kind': 'xproc', 'dir': direction, 'spec': it['spec'], 'hashed': it['hashed']})
+    ctx.count('xproc', f"{direction}:{'hashed' if it['hashed'] else 'unhashed'}")
+    if 'error' in res:
+      ctx.violation('pickle-cross-process-raises', f'{direction}: unpickling {json.dumps(it["spec"])} raised {res["error"]}', case)
+    elif not (res['type'] and res['eq']):
+      ctx.violation('pickle-cross-process-not-equal', f'{direction}: a FrozenDict {json.dumps(it["spec"])} pickled in one interpreter does not equal the same literal built in the loading interpreter ({res})', case)
+    elif not (res['hash'] and res['set'] and res['dict']):
+      ctx.violation(
+        'pickle-cross-process-hash' + (':hashed-before-pickling' if it['hashed'] else ''),
+        f'{direction}: FrozenDict {json.dumps(it["spec"])} (hashed before pickling: {it["hashed"]}) loaded in another interpreter equals a fresh one but hash-equal={res["hash"]}, found in set={res["set"]}, dict lookup={res["dict"]}', case)
+
+  for it, res in zip(specs_out, out['loaded']):
+    judge('parent->child', it, res)
+  for it, b64 in zip(specs_back, out['made']):
+    try:
+      x = pickle.loads(base64.b64decode(b64))
+      fresh = FrozenDict(_xp_build(it['spec']))
+      res = {'type': isinstance(x, FrozenDict), 'eq': bool(x == fresh and fresh == x), 'hash': hash(x) == hash(fresh), 'set': x in {fresh}, 'dict': {fresh: 1}.get(x) == 1}
+    except Exception as e:
+      res = {'error': type(e).__name__}
+    judge('child->parent', it, res)
+
+
+# ------------------------------------------------------------------------------------------------
 # entry points
 # ------------------------------------------------------------------------------------------------
 
@@ -1186,6 +1300,8 @@ def _run_case(ctx, drv, obj):
     run_histories(ctx, drv, 0, replay_ops=[case['ops']])
   elif case.get('kind') == 'struct':
     run_structs(ctx, drv, [case], heavy_every=1)
+  elif case.get('kind') == 'xproc':
+    cross_process_pickle(ctx, case['out'], case['back'])
   else:
     raise InfraError(f'unknown corpus/replay case kind {case.get("kind")!r}')
 
@@ -1207,7 +1323,7 @@ def run(ctx):
     'the FrozenDict stored back into the source) over the 17-18 operation alphabet per handle' + ('; plus 12000 sampled three-operation continuations' if thorough else '')
   )
   ctx.count('exhaustive_histories', 'depth2+', len(exh))
-  n_hist = 1500 if not thorough else 40000
+  n_hist = 1100 if not thorough else 40000
   err = steps = 0
   for i in range(0, n_hist, 400):
     e, s = run_histories(ctx, drv, min(400, n_hist - i))
@@ -1217,10 +1333,11 @@ def run(ctx):
   ctx.extra['history_error_steps'] = err
   if steps and err / steps > 0.5:
     raise InfraError(f'history generator degenerated: {err}/{steps} steps raise')
-  n_struct = 500 if not thorough else 6000
+  n_struct = 400 if not thorough else 6000
   cases = [gen_struct_case(ctx.rng) for _ in range(n_struct)]
   run_structs(ctx, drv, cases, heavy_every=(20 if not thorough else 10))
   ctx.sample({'kind': 'struct', 'case': cases[0]})
+  cross_process_pickle(ctx)
   ctx.extra['driver_calls'] = drv.calls
   ctx.extra['exhaustive'] = False
 
